@@ -206,13 +206,23 @@ std::shared_ptr<base::ISampledDimension> DataArrayHDF5::createSampledDimension(n
 }
 
 
+// the frame has to live in the array's block; checked before the descriptor group is created
+static void checkFrameInBlock(const std::shared_ptr<base::IBlock> &block, const nix::DataFrame &df) {
+    if (!block->getEntity<base::IDataFrame>(df.id())) {
+        throw std::runtime_error("DataArrayHDF5::createDataFrameDimension: DataFrame not found in block!");
+    }
+}
+
+
 std::shared_ptr<base::IDataFrameDimension> DataArrayHDF5::createDataFrameDimension(ndsize_t index, const nix::DataFrame &df, unsigned col_index) {
+    checkFrameInBlock(block(), df);
     H5Group g = createDimensionGroup(index);
     return make_shared<DataFrameDimensionHDF5>(g, index, file(), block(), df, col_index);
 }
 
 
 std::shared_ptr<base::IDataFrameDimension> DataArrayHDF5::createDataFrameDimension(ndsize_t index, const nix::DataFrame &df) {
+    checkFrameInBlock(block(), df);
     H5Group g = createDimensionGroup(index);
     return make_shared<DataFrameDimensionHDF5>(g, index, file(), block(), df);
 }
